@@ -124,6 +124,33 @@ this does not touch (2), whose premise does not mention inodes. -/
 theorem inode_ignored_unless_flag_set (o : Opts) (h : o.ignoreInode = false) (p n : Meta) :
     matchInode o p n = true := by simp [matchInode, h]
 
+/-- (6) Every tree the archiver computes is handed to the tree packer unless the index already has it —
+also when its id equals the matched parent subtree id (the "unchanged tree" arm; before the C11 repair that
+arm returned early, so a parent whose tree blob had been removed from the index produced a snapshot with a
+dangling tree: `corpus/C11/pruned_parent_tree.ops`). -/
+theorem tree_saved_or_indexed (H : List Node → Id) (hasTree : Id → Bool) (s : TA) (p : PRes Id) :
+    hasTree (s.backupTree H hasTree p).2 = true ∨
+      (s.backupTree H hasTree p).2 ∈ (s.backupTree H hasTree p).1.adds.map (·.1) := by
+  unfold TA.backupTree
+  simp only []
+  by_cases h : hasTree (H s.tree) = true
+  · exact Or.inl h
+  · right; simp [h]
+
+/-- (6') … in particular the root tree of a completed parent-based backup, whatever the parents were. -/
+theorem root_saved_or_indexed {γ} (H : List Node → Id) (chunk : γ → List Id) (len : γ → Nat)
+    (load : Id → Option (List Node)) (hasData hasTree : Id → Bool) (o : Opts) (roots : List Id)
+    (items : List (Item γ)) (a : ArchOut)
+    (ha : archive H chunk len load hasData hasTree o roots items = some a) :
+    hasTree a.root = true ∨ a.root ∈ a.treeAdds.map (·.1) := by
+  simp only [archive] at ha
+  split at ha
+  · cases ha
+  · split at ha
+    · cases ha
+    · injection ha with ha; subst ha
+      exact tree_saved_or_indexed H hasTree _ _
+
 /-! ### Non-vacuity: a concrete parent forest, source walk and index satisfying every hypothesis, with a
 reused file, a re-read file (blob 7 missing from the index), a changed file and a sub-directory. -/
 
